@@ -302,7 +302,8 @@ FAMILIES = {
              ("differencing-path", "differencing.avhdx.gz"), ("differencing-path-parent-present", "differencing.avhdx.gz")],
     "vmdk": [("sesparse", "sesparse.vmdk.gz"), ("sesparse-path", "sesparse.vmdk.gz"), ("sesparse-path+debuglog", "sesparse.vmdk.gz"),
              ("flat-descriptor+debuglog", None), ("flat-descriptor", None),
-             ("flat-descriptor-parent", None), ("flat-descriptor-parent-present", None), ("handle-list", None)] +
+             ("flat-descriptor-parent", None), ("flat-descriptor-parent-present", None), ("handle-list", None),
+             ("raw-rwhandle", None), ("sesparse-rwhandle", "sesparse.vmdk.gz")] +
             [(f"flat-descriptor-ct:{ct}:{acc}", None)
              for ct in ("fullDevice", "partitionedDevice", "vmfsRaw", "vmfsRawDeviceMap", "vmfsPassthroughRawDeviceMap",
                         "monolithicFlat", "vmfs", "custom", "streamOptimized")
@@ -533,6 +534,10 @@ class AuditSuite(Suite):
                     o.write(txt)
             else:
                 paths["main"] = build_vmdk_descriptor(root, parent="parent" in variant)
+        if fam == "vmdk" and variant == "raw-rwhandle":
+            paths["main"] = os.path.join(root, "raw-flat.vmdk")            # a bare flat image handed over as a handle
+            with open(paths["main"], "wb") as o:
+                o.write(bytes(range(256)) * 128)
         if fam == "vmdk" and variant == "handle-list":
             build_vmdk_descriptor(root)
             paths["main"] = os.path.join(root, "disk-f001.vmdk")
@@ -628,6 +633,41 @@ class AuditSuite(Suite):
                 stream.read(5000)
             stream.seek(0)
             stream.read(70000)
+            if variant.endswith(("rwhandle", "aplushandle")):
+                probe_mutators(stream)
+
+        def probe_mutators(top):
+            # the caller's handle is writable: no object of the library that a user can reach from the reader offers an
+            # operation that changes it.  Every reachable library object is asked for the file-mutating operations; where
+            # one exists it is invoked (a refusal is fine, a change of the evidence shows in the tree comparison).
+            seen, todo = set(), [(top, 0)]
+            while todo:
+                obj, depth = todo.pop()
+                if id(obj) in seen or depth > 3:
+                    continue
+                seen.add(id(obj))
+                mod = type(obj).__module__ or ""
+                if not mod.startswith("dissect.hypervisor"):
+                    continue
+                for name, args in (("write", (b"C09-probe",)), ("writelines", ([b"C09-probe"],)), ("truncate", (7,))):
+                    try:
+                        fn = getattr(obj, name, None)
+                        if callable(fn):
+                            fn(*args)
+                    except BaseException:  # noqa: BLE001
+                        pass
+                kids = []
+                try:
+                    kids = list(vars(obj).values())
+                except TypeError:
+                    pass
+                for kid in kids:
+                    if isinstance(kid, (list, tuple)):
+                        todo += [(x, depth + 1) for x in kid[:8]]
+                    elif isinstance(kid, dict):
+                        todo += [(x, depth + 1) for x in list(kid.values())[:8]]
+                    else:
+                        todo.append((kid, depth + 1))
 
         if fam == "vhd":
             from dissect.hypervisor.disk.vhd import VHD
